@@ -192,26 +192,40 @@ func main() {
 		Property: "C15",
 		Level:    "exploration",
 		Rule: "bounded-exhaustive enumeration of transform programs over the schema [msg tag aux lvl], each rendered to YAML, loaded through the registered config constructors + VerifyConfig + " +
-			"bsupport.NewTransformsFromConfig and run with bsupport.RunTransforms on a fresh instance and a fresh heap-copied record, then a second record through the same instance; compared " +
-			"(fields, record.Unescaped, PASS/DROP, label counters count+bytes) with the reference interpreter ref.go. Groups: every leaf transform alone over its parameter menu (slice bounds " +
-			"{none,0,1,-1,-5,99}^2; boundaries {none,'[','] - '}^2 x classes {*,[a-z],[^ ],[0-9a-f-]} x maxLen {1,5,100}; truncate maxLen 1..6 x suffix {'.','...','…'}; ...) x boundary-biased " +
-			"values generated per configuration (empty, one char, label exactly filling / one byte beyond the search range, blanks only, multi-byte at the cut, escapes); every match operator x " +
-			"argument menu x value menu under three carriers (if, switch case, drop), all pairs of a reduced operator menu (AND), and every glob of 1..3 (quick) / 1..4 (thorough) tokens from " +
-			"{a,b,*,?,[ab],{a,b},{a*,b},**} x every value over {a,b,é} up to length 4; all ordered pairs of a reduced leaf menu, plain and with the second step under an if; every leaf of the " +
-			"reduced menu under every control context path (if / switch first-case / switch second-case / block, alone / before / after a marker step, condition true / false) of depth <=2 (quick) / " +
-			"<=3 (thorough); all control programs of if/switch/block with positional marker leaves and 100% drops, breadth <=2, depth 2 (quick) / 3 (thorough); sampled drop: every rate 1..99 x 4 " +
-			"wrappers x 3 match patterns, every prefix up to 300 matched records. Non-trivial = the reference changes something observable for the record (a field, the flag, DROP or a counter). " +
-			"Configurations rejected by the real VerifyConfig/unmarshalling are counted (groups rejected-config/*) and not run.",
+			"bsupport.NewTransformsFromConfig and run with bsupport.RunTransforms on a fresh instance and a fresh heap-copied record, then a second, DIFFERENT record through the same instance (the " +
+			"first live record is re-read afterwards); compared (fields, record.Unescaped, PASS/DROP, label counters count+bytes) with the reference interpreter ref.go. Groups: leaf/*: every leaf " +
+			"transform alone over its parameter menu (slice bounds {none,0,1,-1,-5,99}^2; boundaries {none,'[','] - '}^2 x classes {*,[a-z],[^ ],[0-9a-f-]} x maxLen {1,5,100} plus classes " +
+			"{[^\\]],[a-z\\]],[^a-z],[-a-z],[a-zA-Z0-9_],[\\*],[^A-Zxmz-],[\\[\\]]} x maxLen {5,100}; the same with key == destKey; truncate maxLen 1..6 x suffix {'.','...','…'}; addFields also with the scratch " +
+			"capacity scaled down to 8 bytes; ...) x boundary-biased values generated per configuration (empty, one char, label exactly filling / one byte beyond the search range, blanks only, control " +
+			"bytes, Unicode spaces, DEL, backslashes and brackets in the label, multi-byte at the cut, escapes); match/*: every match operator x argument menu x value menu (incl. for every argument its " +
+			"twins: other letter case, Unicode case-fold twins, blank / NUL added, doubled) under three carriers (if, switch case, drop), all pairs of a reduced operator menu (AND), and every glob " +
+			"of 1..3 (quick) / 1..4 (thorough) tokens from {a,b,*,?,[ab],{a,b},{a*,b},**} x every value over {a,b,é} up to length 4; pairs: all ordered pairs of a reduced leaf menu, plain and with the " +
+			"second step under an if, x 30 records; context/*: every leaf of the reduced menu under every control context path (if / switch first-case / switch second-case / block, alone / before / " +
+			"after a marker step, condition true / false) of depth <=2 (quick) / <=3 (thorough); nest/*: all control programs of if/switch/block with positional marker leaves and 100% drops, breadth " +
+			"<=2, depth 2 (quick) / 3 (thorough); sampling: every rate 1..99 x 4 wrappers x 4 match patterns, every prefix up to 2100 (quick) / 5000 (thorough) matched records; every rate on an " +
+			"all-matching stream up to 70 000 / 1 100 000 records (thorough: four rates beyond 2^31/100); every rate x 3 patterns on two instances built from one parsed configuration; long/*: every " +
+			"leaf transform and every match operator on values of the lengths {101, 1023..1025, cap-3..cap+1, 2cap+5, 65537, 70001} (cap = defs.InputLogMaxMessageBytes as set by the harness; thorough: " +
+			"+-1 around every power of two up to 2^20) with the deciding bytes at the far end; bytes/*: all 256 byte values (+13 Unicode spaces) at the edges of an extracted label, all 256 byte values " +
+			"against every class of the menu (with and without a far boundary), all 256 byte values substituted / added at the edges of a match argument and mapping key; history: every leaf of " +
+			"the reduced menu (+7), alone, under an if, and every ordered pair, fed a stream of 33 records of mixed lengths (short, > 1024, > cap) to two instances built from ONE parsed " +
+			"configuration (forwards / backwards, alternating), every result compared and every earlier live record of both instances re-read after every record. Non-trivial = the reference changes " +
+			"something observable for the record (a field, the flag, DROP or a counter). Configurations the menus mark as deliberately invalid and the real VerifyConfig/unmarshalling rejects are counted " +
+			"(groups rejected-config/*) and not run; a rejected configuration of the VALID menu is a violation (valid-configuration-rejected:<group>).",
 		Assumptions: []string{
 			"addFields with several pairs is generated only with pairs that do not read each other's destinations (pair order is a Go map order; the documentation defines none)",
 			"open points of the documentation are accepted either way (never a panic): an empty target between boundaries with a bracket class; a target of blanks only (empty label + cut, or no change); " +
 				"replace on an empty (= undefined) field; extract: a named group that did not take part in the match (left alone or cleared); the exact pattern of sampled drop decisions",
 			"unescape follows A.4: once per record (it marks the record unescaped, a later unescape of any field is skipped)",
 			"extractHead/extractTail with a bracket class and no far boundary: the target is the maximal run of class bytes, maxLen not applied (documentation silent)",
+			"extractHead/extractTail with key == destKey (accepted by the loader, not spelled out by the documentation): 'extract ... to destKey' - the field ends up holding the label (A.4: the source is cut, then the destination receives the label); these cases have their own key scope leaf/<kind>[key=destKey]",
+			"inside a bracket class only the documented escapes \\[ \\] \\* are generated; boundaries escape [ ] * and the backslash",
 			"truncate equality is required for valid UTF-8 values; for invalid UTF-8 only: no panic, suffix present, length <= maxLen+len(suffix), other fields untouched",
 			"mapValue without a configured default maps unlisted values to the empty string",
-			"parseTime (C13) and redactEmail (C14) are excluded; configurations VerifyConfig rejects are out of scope (C16)",
-			"defs.InputLogMaxMessageBytes (capacity hint of the addFields scratch buffer) is lowered from 1 MiB to 4 KiB by the harness for speed",
+			"glob / regex operators are swept with ASCII bytes only at the argument edges (the pattern languages do not define bytes that are not valid UTF-8); the string operators and mapValue with all 256",
+			"!!glob mismatches are KEYED (never judged) with the help of a direct call of gobwas/glob: a mismatch is attributed to one of the four recorded library defects only if the library itself gives the same wrong answer for the same pattern and value AND the minimal symptom of that defect is demonstrated on this case; otherwise the key is product-differs-from-gobwas / gobwas-same-answer:unclassified / history-dependent",
+			"parseTime (C13) and redactEmail (C14) are excluded; configurations VerifyConfig rejects are out of scope (C16) when the menu marks them invalid",
+			"defs.InputLogMaxMessageBytes (capacity of the addFields scratch buffer) is lowered from 1 MiB to 4 KiB by the harness (to 8 bytes in group leaf/addFields[cap8]); values longer than it are part of the menus (long/*, history), so the growth path is executed",
+			"real concurrency between instances (several goroutines) is not driven by this sequential harness; instances are interleaved on one goroutine",
 		},
 		Enumerate:        enumerate,
 		QuickDeadline:    20 * time.Minute,
